@@ -90,6 +90,8 @@ Record cfgE := CfgE {
   ce_ns : nat;               (* the n_shuffles parameter (ignored by the code when a tensor is given) *)
   ce_ret : bool;             (* return_references *)
   ce_nargs : nat;            (* number of extra args (None when 0) *)
+  ce_tf : Z;                 (* scale of the output column selected by `target` (the harness's
+                                module returns the columns 1*s, 2*s, 3*s) *)
   ce_base : list exE }.
 
 Record cfgR := CfgR { cr_ns : nat; cr_ret : bool; cr_base : list exR }.
@@ -138,7 +140,7 @@ Definition render_flush (nargs : nat) (seed : option Z) (X : list exE)
 Definition run_enc (c : cfgE) (v : variation) : runE :=
   if in_range (ce_base c) (v_sel v) then
     let X := select dexE (ce_base c) (v_sel v) in
-    let '(r, t) := dlsE (ce_mode c) (cls_factor (v_cls v)) (ce_seed c) (ce_ns c) (ce_ret c) (v_b v) X in
+    let '(r, t) := dlsE (ce_mode c) (cls_factor (v_cls v) * ce_tf c) (ce_seed c) (ce_ns c) (ce_ret c) (v_b v) X in
     (r, map (render_flush (ce_nargs c) (ce_seed c) X) t)
   else (Err, []).
 
